@@ -669,7 +669,12 @@ impl Consensus {
     /// [token-issuance](https://github.com/nervosnetwork/rfcs/blob/master/rfcs/0015-ckb-cryptoeconomics/0015-ckb-cryptoeconomics.md#token-issuance)
     pub fn primary_epoch_reward(&self, epoch_number: u64) -> Capacity {
         let halvings = epoch_number / self.primary_epoch_reward_halving_interval();
-        Capacity::shannons(self.initial_primary_epoch_reward.as_u64() >> halvings)
+        // after 64 halvings nothing is left; `>>` by 64 or more would overflow
+        let reward = u32::try_from(halvings)
+            .ok()
+            .and_then(|h| self.initial_primary_epoch_reward.as_u64().checked_shr(h))
+            .unwrap_or(0);
+        Capacity::shannons(reward)
     }
 
     /// Primary reward is cut in half every halving_interval epoch
